@@ -9,6 +9,7 @@ from ..cfg import cfg_of, Prov
 from ..irwrites import closure_effects
 from ..translator import TRANSLATORS, DirtyAnalysis, dispatch_table, child_kinds
 from .. import variants as V
+from .. import kernel
 
 PROPERTY = "C11"
 TITLE = "Translation is a pure function of the program"
@@ -264,6 +265,17 @@ def r3_no_ir_writes(repo):
     return obs
 
 
+def r6_process_state(repo):
+    """'after translating other programs': nothing may be carried from one translation to the next outside the translator
+    object (whose state R1/R2 decide) - no mutated default argument, no mutated class-level container."""
+    obs = []
+    for lang, q in sorted(TRANSLATORS.items()):
+        cls = repo.cls(q)
+        E, fns, _effs = closure_effects(repo, cls)
+        obs += kernel.process_state(repo, "C11-R6", lang, E, fns)
+    return obs
+
+
 def _unused_param_fixpoint(repo, start):
     """Greatest fixpoint: (function, param) pairs whose every occurrence is as a direct argument of a call at a
     position that is itself in the set."""
@@ -470,6 +482,7 @@ def rules():
         RuleSpec("C11-R3", "no store in the translators' call-graph closure reaches the program", 8, r3_no_ir_writes),
         RuleSpec("C11-R4", "no ambient inputs; randomised type list never read", 12, r4_ambient),
         RuleSpec("C11-R5", "translate_program is visit + result", 5, r5_translate_program),
+        RuleSpec("C11-R6", "no state survives in function defaults or class bodies", 8, r6_process_state),
     ]
 
 
